@@ -39,7 +39,7 @@ type rw struct {
 	wroteHeader int // number of WriteHeader calls
 	body        []byte
 	writes      int
-	snap        http.Header // headers as of the first WriteHeader/Write (what a server would send)
+	snap        http.Header  // headers as of the first WriteHeader/Write (what a server would send)
 	inner       http.Handler // the wrapped handler to run for THIS exchange (see wrappedOnce)
 }
 
